@@ -19,7 +19,7 @@ RULE = (
     "1e-2} for |q| L in {1e-3, 1, 7.3, 30}; densities {1, 2.5}; one full batch, every ordered batch of length <=3 over the classes "
     "{zero, along a normal, perpendicular to an edge, axis, generic}, (1,3) singles and a batch of 50 - every returned amplitude is "
     "compared with an independent Fourier transform (signed simplices to the origin, divided differences of exp by Opitz's formula; "
-    "closed forms for voxel solids and spheres).  non-trivial = distinct (shape, placement, q != 0) triple of the full batch."
+    "closed forms for voxel solids and spheres).  Also: whole-number wave vectors as int64 / int32 arrays; ordered batches of length <= 2 with density 2.5.  non-trivial = distinct (shape, placement, q != 0) triple of the full batch."
 )
 ASSUMPTIONS = ["trusted base additionally: scipy.linalg.expm inside the reference (validated against the voxel/box closed form in every VOX case)", "'all q' replaced by the finite direction x magnitude alphabet"]
 TRUSTED = ["scipy.linalg.expm (reference only)"]
